@@ -42,6 +42,10 @@ type c10Case struct {
 	Nchan  int     `json:"nchan"`
 	FailBy string  `json:"fail_by,omitempty"` // udp sources: why the first start fails: "" nothing is sent yet, "overlap" two channel groups sharing a channel number arrive
 	Dwell  int     `json:"dwell_ms,omitempty"` // let every run last at least this long after its first block (C17 workloads)
+	// Unwrap (udp sources): 0 no phase unwrapping; 1 rescale+unwrap, reset after 20000 samples; 2 rescale+unwrap with the reset
+	// interval left at 0 (a client omitting the field); 3 unwrap without rescale. 2 and 3 cannot work: Configure may refuse them,
+	// and what it accepts must start or fail cleanly.
+	Unwrap int `json:"unwrap,omitempty"`
 	Ops    []c10Op `json:"ops"`
 }
 
@@ -341,6 +345,7 @@ func c10Run(c c10Case) (v vVerdict) {
 	viper.Reset()
 	e := &c10Env{c: &c, root: root, queued: make(chan func())}
 	var inner DataSource
+	oddRefused, oddAccepted := false, false // unworkable unwrap options: refused by Configure / accepted
 	reconfigure := func(nchan int) error { return nil }
 	switch c.Source {
 	case "scripted":
@@ -450,7 +455,25 @@ func c10Run(c c10Case) (v vVerdict) {
 			hosts = append(hosts, fmt.Sprintf("127.0.0.1:%d", e.udpPort2))
 		}
 		reconfigure = func(n int) error {
-			return as.Configure(&AbacoSourceConfig{HostPortUDP: append([]string(nil), hosts...)})
+			cfg := &AbacoSourceConfig{HostPortUDP: append([]string(nil), hosts...)}
+			switch c.Unwrap {
+			case 1:
+				cfg.AbacoUnwrapOptions = AbacoUnwrapOptions{RescaleRaw: true, Unwrap: true, ResetAfter: 20000, PulseSign: 1}
+			case 2:
+				cfg.AbacoUnwrapOptions = AbacoUnwrapOptions{RescaleRaw: true, Unwrap: true, ResetAfter: 0, PulseSign: 1}
+			case 3:
+				cfg.AbacoUnwrapOptions = AbacoUnwrapOptions{RescaleRaw: false, Unwrap: true, ResetAfter: 20000, PulseSign: 1}
+			}
+			err := as.Configure(cfg)
+			if err != nil && c.Unwrap >= 2 {
+				// refused, as it may be: the client falls back to a configuration without unwrapping
+				oddRefused = true
+				return as.Configure(&AbacoSourceConfig{HostPortUDP: append([]string(nil), hosts...)})
+			}
+			if err == nil && c.Unwrap >= 2 {
+				oddAccepted = true
+			}
+			return err
 		}
 		inner, e.any = as, &as.AnySource
 	default:
@@ -465,6 +488,7 @@ func c10Run(c c10Case) (v vVerdict) {
 	running := false    // harness' knowledge: started and not yet stopped/ended
 	writing := false
 	failNext := ""
+	endEarly := false
 	nchan := c.Nchan
 	concurrentStops, postSelfStops, restarts, forced, garbage, failedStarts := 0, 0, 0, 0, 0, 0
 	defer func() {
@@ -535,6 +559,11 @@ func c10Run(c c10Case) (v vVerdict) {
 		if err == nil && expectFail && st0 != Inactive {
 			f := vFailf("start-while-active", "op %d: Start succeeded although the source state was %d", i, st0)
 			return &f
+		}
+		if err != nil && !expectFail && oddAccepted {
+			// Configure accepted unwrap options that cannot work and Start refused cleanly: acceptable, nothing more to learn
+			endEarly = true
+			return nil
 		}
 		if err != nil && !expectFail {
 			f := vFailf("start-failed", "op %d: Start of an inactive %s source (start number %d on this object) failed: %v", i, c.Source, e.started+1, err)
@@ -627,6 +656,9 @@ func c10Run(c c10Case) (v vVerdict) {
 	}
 
 	for i, op := range c.Ops {
+		if endEarly {
+			return v
+		}
 		switch op.Op {
 		case "start":
 			if bad := doStart(i); bad != nil {
@@ -796,6 +828,9 @@ func c10Run(c c10Case) (v vVerdict) {
 			failNext = op.Kind
 		}
 	}
+	if endEarly {
+		return v
+	}
 	// epilogue: whatever happened, the same object can be configured, started and stopped once more
 	if e.ds.GetState() == Active || running {
 		if bad := doStops(len(c.Ops), 1, nil, "final Stop"); bad != nil {
@@ -831,6 +866,9 @@ func c10Run(c c10Case) (v vVerdict) {
 	if garbage > 0 {
 		v.Classes = append(v.Classes, "garbage-datagram")
 	}
+	if oddRefused {
+		v.Classes = append(v.Classes, "unworkable-unwrap-options-refused")
+	}
 	if failedStarts > 0 {
 		v.Classes = append(v.Classes, "write-start-failing-late")
 	}
@@ -851,6 +889,9 @@ func c10Gen(t *rapid.T) c10Case {
 	}
 	if c.Source == "udp" && rapid.Bool().Draw(t, "overlapfail") {
 		c.FailBy = "overlap"
+	}
+	if c.Source == "udp" || c.Source == "udp2" {
+		c.Unwrap = rapid.SampledFrom([]int{0, 0, 1, 2, 3}).Draw(t, "unwrapopts")
 	}
 	nrounds := rapid.IntRange(1, 3).Draw(t, "rounds")
 	if c.Source == "abaco" || c.Source == "udp" || c.Source == "udp2" || c.Source == "lancero" || c.Source == "roach" {
